@@ -479,7 +479,7 @@ def serStep (s : SerialSys) (toks : List String) : SerialSys × String :=
     let lp := nat! lp
     if !s.finished ∧ !s.pending.isEmpty then (s, s!"early-fini {lp}") else
     let st := s.sts.getD lp {}
-    (s, s!"sfini lp={lp} st={hx (digest st)} cnt={st.cnt.toNat}")
+    (s, s!"sfini lp={lp} st={hx (digest st)} cnt={st.cnt.toNat} thr={threshold s.P lp}")
   | ["end"] => (s, "end")
   | _ => (s, "bad-op")
 
@@ -590,7 +590,7 @@ def serial2Step (s : Serial2) (toks : List String) : Serial2 × String :=
       else some s!"d lp={e.dest} tq={e.t} type={e.type} size={e.payload.length} pl={hx (payloadDigest e.payload)}")
     let fin := (List.range s.P.nLps).map (fun lp =>
       let st := r.states.getD lp {}
-      s!"sfini lp={lp} st={hx (digest st)} cnt={st.cnt.toNat}")
+      s!"sfini lp={lp} st={hx (digest st)} cnt={st.cnt.toNat} thr={threshold s.P lp}")
     let oc := match r.outcome with
       | .finished => "outcome finished"
       | .outOfFuel => "outcome outOfFuel"
